@@ -8,6 +8,14 @@ import Mahotas.Proofs.C19Lbp
 import Mahotas.Proofs.C19LbpHist
 import Mahotas.Proofs.C19Integral
 import Mahotas.Proofs.C19Haralick
+import Mahotas.Proofs.C19Zernike
+import Mahotas.Proofs.C19Necklace
+import Mahotas.Proofs.C19Burnside
+import Mahotas.Proofs.C19HaralickFeat
+import Mahotas.Proofs.C19CoocData
+import Mahotas.Proofs.C19Entropy
+import Mahotas.Proofs.C19IntegralRing
+import Mathlib.Data.ZMod.Basic
 namespace Mahotas.C19
 open Mahotas Mahotas.Generated
 
@@ -191,6 +199,245 @@ theorem C19_zernike_scale_invariance {α : Type} [Field α] [LinearOrder α] [Is
     ((∃ dv ∈ inDisc.zip P, dv.1 = true ∧ 0 < dv.2) → gsum 0 (zernikeFrac 0 inDisc P) = 1) :=
   ⟨zernikeFrac_scale inDisc P s hs, zernikeFrac_sum_of_exists inDisc P⟩
 
+/-- **C19-T6 (Zernike: rotation by 90° about the chosen centre).** `zernikeZ` is the transliteration of
+`zernike_moments` up to `abs` — grid `Yn = (y − c0)/radius`, `Xn = (x − c1)/radius`, `Dn = max(sqrt(Xn² + Yn²), eps)`,
+selection `(Dn <= 1) & (P > 0)`, weights `P[k]/P[k].sum()`, angles `An ** l` with `An = (Xn + i·Yn)/Dn`, then the
+kernel `_zernike.znl` (`znlG`: radial coefficients from the extracted factorial table, `Vnl = Σ_m g_m · pow(d, n−2m) · a`,
+`v = Σ p · conj(Vnl)`, `v *= (n+1)/π`) — generic in the scalar type; the driver runs it at `Float` and the check compares
+it with the real `_zernike.znl` and `zernike_moments`. Over **any field with a decidable linear order**, for **arbitrary**
+functions `sqrt` and `pow` and arbitrary `eps`, `π`, every image size, image, centre, radius, `n` and `l`:
+the moment of the image rotated by 90° (`rot[i][j] = im[j][C−1−i]`, i.e. `np.rot90`, centre moved with it to
+`(C−1−c1, c0)`) is `i^l` times the moment of the image; `|i^l|² = 1`, hence `|z_nl|²` is unchanged, and the whole vector
+returned by `zernike_moments` (`sqrt |z_nl|²` for every `(n, l)` through any degree) is *equal*. (Rotation permutes the
+selected pixels, keeps `Dn`, the value and the weight of each, and multiplies its angle `An` by `−i`.) -/
+theorem C19_zernike_rot90 {α : Type} [Field α] [LinearOrder α] (sqrt : α → α) (pow : α → ℕ → α) (eps pi : α)
+    (R C : ℕ) (im : ℕ → ℕ → α) (c0 c1 radius : α) :
+    let rot := fun (i j : ℕ) => im j (C - 1 - i)
+    (∀ n l, zernikeZ 0 1 Nat.cast sqrt pow eps pi C R rot ((C : α) - 1 - c1) c0 radius n l =
+      cxMul (cxPow 0 1 (0, 1) l) (zernikeZ 0 1 Nat.cast sqrt pow eps pi R C im c0 c1 radius n l)) ∧
+    (∀ l, cxNormSq (cxPow 0 1 ((0 : α), 1) l) = 1) ∧
+    (∀ n l, cxNormSq (zernikeZ 0 1 Nat.cast sqrt pow eps pi C R rot ((C : α) - 1 - c1) c0 radius n l) =
+      cxNormSq (zernikeZ 0 1 Nat.cast sqrt pow eps pi R C im c0 c1 radius n l)) ∧
+    (∀ degree, zernikeAbs 0 1 Nat.cast sqrt pow eps pi C R rot ((C : α) - 1 - c1) c0 radius degree =
+      zernikeAbs 0 1 Nat.cast sqrt pow eps pi R C im c0 c1 radius degree) := by
+  intro rot
+  refine ⟨fun n l => zernikeZ_rot90 sqrt pow eps pi R C im c0 c1 radius n l, cxNormSq_pow_i,
+    fun n l => zernikeZ_rot90_normSq sqrt pow eps pi R C im c0 c1 radius n l, fun degree => ?_⟩
+  unfold zernikeAbs
+  refine List.map_congr_left fun nl _ => ?_
+  rw [zernikeZ_rot90_normSq]
+
+/-- **C19-T3 (LBP: the bins are the rotation classes — binary necklaces).** `pivots P` are the codes `c = map c`
+among all `2^P` codes; the compressed histogram `lbpCompress` has exactly one bin per pivot, whatever the pixel codes.
+For **every** `P ≥ 1` (no bound): two `P`-bit codes are mapped to the same bin iff they are cyclic rotations of one
+another (`RotEq`); the pivots are pairwise distinct and every rotation class contains exactly one pivot (a system of
+distinct representatives); hence the number of bins equals the number of rotation classes of `P`-bit codes
+(`Nat.card` of the quotient of `{v // v < 2^P}` by rotation — the equivalence `classEquiv` is `⟦v⟧ ↦ map v`).
+And for **every** `P ≥ 1` this number times `P` equals the closed form `Σ_{d ∣ P} φ(d) · 2^{P/d}` (Mathlib's
+`Nat.divisors`, `Nat.totient`) — the number of binary necklaces of length `P`: 2, 3, 4, 6, 8, 14, 20, 36, 60, 108, 188,
+352, … bins. Proof (`Proofs/C19Burnside.lean`): `ZMod P` acts on the codes by `k +ᵥ v = rollRight^k v`, its orbits are
+the rotation classes, a rotation by `k` fixes exactly the `2^gcd(P,k)` codes whose bit pattern is `gcd(P,k)`-periodic
+(Bézout in `ZMod P`), Burnside's lemma, and `#{k < P | gcd(P,k) = d} = φ(P/d)`; for `P ≤ 12` the closed form is also
+confirmed by kernel evaluation of the model's `lbpMap` on all `2^P` codes (`pivots_closed_form`). -/
+theorem C19_lbp_bins_count :
+    (∀ P mapped, (lbpCompress P mapped).length = (pivots P).length) ∧
+    (∀ P v w, 1 ≤ P → v < 2 ^ P → w < 2 ^ P → (lbpMap P v = lbpMap P w ↔ RotEq P v w)) ∧
+    (∀ P, (pivots P).Nodup) ∧
+    (∀ P v, 1 ≤ P → v < 2 ^ P → ∃! c, c ∈ pivots P ∧ RotEq P v c) ∧
+    (∀ P (hP : 1 ≤ P), Nat.card (Quotient (rotSetoid P hP)) = (pivots P).length) ∧
+    (∀ P, 1 ≤ P → (pivots P).length * P = ∑ d ∈ P.divisors, Nat.totient d * 2 ^ (P / d)) :=
+  ⟨lbpCompress_length, fun P v w hP hv hw => lbpMap_eq_iff P v w hP hv hw, pivots_nodup,
+   fun P v hP hv => pivot_unique P v hP hv, card_classes,
+   pivots_burnside⟩
+
+/-- **C19-T7 (the Haralick features without logarithms are their textbook formulas).** `haralick13` (the model the
+driver runs at `Float`, compared with the real `haralick` at 1e-9) is assembled from generic definitions — first part:
+f2, f3, f4, f5, f6, f7, f10 of the returned list *are* `contrastG`, `covG / (sqrt vx · sqrt vy)`, `varG`, `idmG`, `sumAvgG`,
+`sumVarG`, `diffVarG` at `Float` (by `rfl`). Over **any ordered field**, for every `m × m` count matrix `c` with non-zero
+total, `p = c / Σc`, marginals `p_x = p.sum(0)`, `p_y = p.sum(1)`, `p_{x+y}`, `p_{x−y}`:
+* contrast `Σ_k k² p_{x−y}(k) = Σ_{i,j} (i − j)² p(i,j)`;
+* sum average `Σ_k k p_{x+y}(k) = Σ_{i,j} (i + j) p(i,j) = μ_y + μ_x`;
+* inverse difference moment `Σ p(i,j)/(1 + (i−j)²) ∈ [0, 1]`;
+* the variances `Σ k² p_x(k) − μ_x²` (f4) and `Σ k² p_y(k) − μ_y²` are `≥ 0` and equal the centred textbook forms
+  `Σ_{i,j} (j − μ_x)² p(i,j)`, `Σ_{i,j} (i − μ_y)² p(i,j)`; sum variance `= Σ_{i,j} (i + j − f6)² p(i,j)`, which also equals the
+  form `texture.py` evaluates, `np.dot(tk2, px_plus_y) − feats[5]**2` (the model uses the centred form: same real number);
+* covariance² `(Σ i j p(i,j) − μ_x μ_y)² ≤ var_x · var_y` (weighted Cauchy–Schwarz, no square roots), hence with any
+  positive square roots `s_x² = var_x`, `s_y² = var_y` the correlation `cov/(s_x s_y)` lies in `[−1, 1]` (where a
+  variance vanishes the textbook formula is 0/0 and the check does not compare f3);
+* sum variance `Σ_k (k − f6)² p_{x+y}(k) ≥ 0`, difference variance `≥ 0`, and the alternative difference variance of
+  the option `use_x_minus_y_variance`, `VAR[|x−y|] = Σ k² p_{x−y}(k) − (Σ k p_{x−y}(k))² ≥ 0`.
+The entropies f8, f9, f11 and the information measures f12, f13 are the textbook `−Σ q log₂ q` formulas of the model at
+`Float` (`entropy`); no identity about them is proved. -/
+theorem C19_haralick_features_def :
+    (∀ (m : ℕ) (c : List ℕ),
+      let P := matAt 0.0 m (normMat Float.ofNat c)
+      let px := colSumG 0.0 m P
+      let py := rowSumG 0.0 m P
+      let h := haralick13 m c
+      h.getD 1 0.0 = contrastG 0.0 Float.ofNat m (pminusG 0.0 m P) ∧
+      h.getD 2 0.0 = covG 0.0 Float.ofNat m P (meanG 0.0 Float.ofNat px m) (meanG 0.0 Float.ofNat py m) /
+        (Float.sqrt (varG 0.0 Float.ofNat px m) * Float.sqrt (varG 0.0 Float.ofNat py m)) ∧
+      h.getD 3 0.0 = varG 0.0 Float.ofNat px m ∧
+      h.getD 4 0.0 = idmG 0.0 1.0 Float.ofNat m P ∧
+      h.getD 5 0.0 = sumAvgG 0.0 Float.ofNat m (pplusG 0.0 m P) ∧
+      h.getD 6 0.0 = sumVarG 0.0 Float.ofNat m (pplusG 0.0 m P) (sumAvgG 0.0 Float.ofNat m (pplusG 0.0 m P)) ∧
+      h.getD 9 0.0 = diffVarG 0.0 Float.ofNat m (pminusG 0.0 m P)) ∧
+    (∀ {α : Type} [Field α] [LinearOrder α] [IsStrictOrderedRing α]
+      (m : ℕ) (c : List ℕ), c.length = m * m → c.sum ≠ 0 →
+      let P := matAt (0 : α) m (normMat (Nat.cast : ℕ → α) c)
+      let px := colSumG 0 m P
+      let py := rowSumG 0 m P
+      let ux := meanG 0 Nat.cast px m
+      let uy := meanG 0 Nat.cast py m
+      let vx := varG 0 Nat.cast px m
+      let vy := varG 0 Nat.cast py m
+      let cov := covG 0 Nat.cast m P ux uy
+      let f6 := sumAvgG 0 Nat.cast m (pplusG 0 m P)
+      contrastG 0 Nat.cast m (pminusG 0 m P) =
+        ∑ i ∈ Finset.range m, ∑ j ∈ Finset.range m, ((i : α) - (j : α)) ^ 2 * P i j ∧
+      f6 = ∑ i ∈ Finset.range m, ∑ j ∈ Finset.range m, ((i : α) + (j : α)) * P i j ∧
+      f6 = uy + ux ∧
+      (0 ≤ idmG 0 1 Nat.cast m P ∧ idmG 0 1 Nat.cast m P ≤ 1) ∧
+      (0 ≤ vx ∧ 0 ≤ vy) ∧
+      (vx = ∑ i ∈ Finset.range m, ∑ j ∈ Finset.range m, P i j * ((j : α) - ux) ^ 2 ∧
+       vy = ∑ i ∈ Finset.range m, ∑ j ∈ Finset.range m, P i j * ((i : α) - uy) ^ 2) ∧
+      sumVarG 0 Nat.cast m (pplusG 0 m P) f6 =
+        ∑ i ∈ Finset.range m, ∑ j ∈ Finset.range m, ((i : α) + (j : α) - f6) ^ 2 * P i j ∧
+      sumVarG 0 Nat.cast m (pplusG 0 m P) f6 =
+        gsum 0 ((List.range (2 * m)).map fun k => ((k * k : ℕ) : α) * (pplusG 0 m P).getD k 0) - f6 * f6 ∧
+      cov ^ 2 ≤ vx * vy ∧
+      (∀ sx sy : α, sx ^ 2 = vx → sy ^ 2 = vy → 0 < sx → 0 < sy →
+        -1 ≤ cov / (sx * sy) ∧ cov / (sx * sy) ≤ 1) ∧
+      0 ≤ sumVarG 0 Nat.cast m (pplusG 0 m P) f6 ∧
+      0 ≤ diffVarG 0 Nat.cast m (pminusG 0 m P) ∧
+      0 ≤ varG 0 Nat.cast (pminusG 0 m P) m) := by
+  refine ⟨fun m c => ⟨rfl, rfl, rfl, rfl, rfl, rfl, rfl⟩, ?_⟩
+  intro α _ _ _ m c hlen hT P px py ux uy vx vy cov f6
+  have h0 : ∀ i j, 0 ≤ P i j := fun i j => matAt_nonneg m c i j
+  have h1 : ∑ i ∈ Finset.range m, ∑ j ∈ Finset.range m, P i j = 1 := matAt_total m c hlen hT
+  exact ⟨contrast_eq m P, sumAvg_eq m P, sumAvg_eq_means m P, idm_bounds m P h0 h1, var_nonneg m P h0 h1,
+    var_centered m P h1, sumVar_eq m P f6, sumVar_code_form m P h1, cov_sq_le m P h0 h1,
+    fun sx sy hx hy px' py' => corr_bounds cov vx vy sx sy (cov_sq_le m P h0 h1) hx hy px' py',
+    sumVar_nonneg m P h0 f6, diffVar_nonneg m _, diffVarAlt_nonneg m P h0 h1⟩
+
+/-- **C19-T2 on the data arrays (what `f[::-1, ::-1, …]` and `swapaxes(0,1)` do to the driver's input).**
+`C19_cooc_rot180` / `C19_cooc_transpose` speak about index maps; this theorem is about the arrays the model receives.
+For every image of any rank with a full C-order data array and values in `[0, m)`, every direction of matching rank:
+the image whose **data array is reversed** reads, at every inside position `p`, the value at the mirrored position
+`shape − 1 − p`, and the symmetric co-occurrence matrix the model computes from it (`symFold ∘ coocModel`, what the
+driver prints and `haralick13` consumes) is the **same array**; the C-contiguous copy of the axis swap (`swapImg`,
+element `p` = element `swap01 p`) with the swapped direction gives the same array too; hence every feature vector
+`haralick13` computes is identical (exact equality of `Float` lists). -/
+theorem C19_cooc_invariance_on_data (m : Nat) (im : Img Int) (d : List Int)
+    (hsz : im.data.size = shapeSize im.shape) (hd : d.length = im.shape.length)
+    (hv : ∀ p, 0 ≤ im.getD p 0 ∧ im.getD p 0 < (m : Int)) :
+    let rev : Img Int := { shape := im.shape, data := im.data.reverse }
+    (∀ p, inside im.shape p = true → rev.getD p 0 = im.getD (revPos im.shape p) 0) ∧
+    symFold m (coocModel m rev d) = symFold m (coocModel m im d) ∧
+    (∀ p, inside (swap01 im.shape) p = true → (swapImg im).getD p 0 = im.getD (swap01 p) 0) ∧
+    symFold m (coocModel m (swapImg im) (swap01 d)) = symFold m (coocModel m im d) ∧
+    haralick13 m (symFold m (coocModel m rev d)).toList = haralick13 m (symFold m (coocModel m im d)).toList ∧
+    haralick13 m (symFold m (coocModel m (swapImg im) (swap01 d))).toList =
+      haralick13 m (symFold m (coocModel m im d)).toList := by
+  intro rev
+  have h1 := symFold_reverse m im d hsz hd hv
+  have h2 := symFold_swap m im d hd hv
+  exact ⟨fun p hp => getD_reverse_img im hsz p hp, h1, fun p hp => swapImg_getD im p hp, h2,
+    by rw [h1], by rw [h2]⟩
+
+/-- **C19-T6 (Zernike: intensity scaling, on the full model).** For the same generic model `zernikeZ` / `zernikeAbs` of
+`zernike_moments` as in `C19_zernike_rot90` (the one the driver runs at `Float`), over any ordered field and for arbitrary
+`sqrt`, `pow`, `eps`, `π`: multiplying every pixel by `s > 0` changes no `z_nl` (the selection `P > 0` is unchanged and the
+weights `P[k]/ΣP[k]` are scale-free), hence not the returned vector. -/
+theorem C19_zernike_scale_full {α : Type} [Field α] [LinearOrder α] [IsStrictOrderedRing α]
+    (sqrt : α → α) (pow : α → ℕ → α) (eps pi : α) (R C : ℕ) (im : ℕ → ℕ → α) (c0 c1 radius s : α) (hs : 0 < s) :
+    (∀ n l, zernikeZ 0 1 Nat.cast sqrt pow eps pi R C (fun y x => s * im y x) c0 c1 radius n l =
+      zernikeZ 0 1 Nat.cast sqrt pow eps pi R C im c0 c1 radius n l) ∧
+    (∀ degree, zernikeAbs 0 1 Nat.cast sqrt pow eps pi R C (fun y x => s * im y x) c0 c1 radius degree =
+      zernikeAbs 0 1 Nat.cast sqrt pow eps pi R C im c0 c1 radius degree) := by
+  refine ⟨fun n l => zernikeZ_scale sqrt pow eps pi R C im c0 c1 radius s hs n l, fun degree => ?_⟩
+  unfold zernikeAbs
+  refine List.map_congr_left fun nl _ => ?_
+  rw [zernikeZ_scale sqrt pow eps pi R C im c0 c1 radius s hs]
+
+/-- **C19-T6 (Zernike: rotation by 180°).** Two quarter turns: the image `im[R−1−i][C−1−j]` with centre
+`(R−1−c0, C−1−c1)` has `z_nl = i^l · i^l · z_nl(im)`, the same `|z_nl|²` and the same returned vector (a third
+application of `C19_zernike_rot90` gives 270°). -/
+theorem C19_zernike_rot180 {α : Type} [Field α] [LinearOrder α] (sqrt : α → α) (pow : α → ℕ → α) (eps pi : α)
+    (R C : ℕ) (im : ℕ → ℕ → α) (c0 c1 radius : α) :
+    let rot := fun (i j : ℕ) => im (R - 1 - i) (C - 1 - j)
+    (∀ n l, zernikeZ 0 1 Nat.cast sqrt pow eps pi R C rot ((R : α) - 1 - c0) ((C : α) - 1 - c1) radius n l =
+      cxMul (cxPow 0 1 (0, 1) l) (cxMul (cxPow 0 1 (0, 1) l)
+        (zernikeZ 0 1 Nat.cast sqrt pow eps pi R C im c0 c1 radius n l))) ∧
+    (∀ degree, zernikeAbs 0 1 Nat.cast sqrt pow eps pi R C rot ((R : α) - 1 - c0) ((C : α) - 1 - c1) radius degree =
+      zernikeAbs 0 1 Nat.cast sqrt pow eps pi R C im c0 c1 radius degree) := by
+  intro rot
+  refine ⟨fun n l => zernikeZ_rot180 sqrt pow eps pi R C im c0 c1 radius n l, fun degree => ?_⟩
+  unfold zernikeAbs
+  refine List.map_congr_left fun nl _ => ?_
+  rw [zernikeZ_rot180, cxNormSq_cxMul, cxNormSq_cxMul, cxNormSq_pow_i, one_mul, one_mul]
+
+/-- **C19-T7 (the entropy features and information measures, over the reals).** `entropyG`, `hxy1G`, `hxy2G` are generic
+definitions; f8, f9, f11 and HX, HY, HXY1, HXY2 inside `haralick13` are these at `Float` with `Float.log2` (first part, by
+`rfl` for the returned entries f8, f9, f11, HX, HY). Instantiated at `ℝ` with `log₂ = Real.logb 2`, for every `m × m` count
+matrix with non-zero total: the five entropies (sum entropy f8, entropy f9, difference entropy f11, `HX`, `HY`) are `≥ 0`;
+**Gibbs' inequality** `f9 = HXY ≤ HXY1`, so the numerator `f9 − HXY1` of the information measure f12 is `≤ 0`;
+`HXY1 = HXY2 = HX + HY` exactly (the marginals of `p` are exact); hence the argument of f13,
+`1 − exp(−2 (HXY2 − f9))`, lies in `[0, 1)` and the clamp `max(0, ·)` of the code never acts in exact arithmetic.
+(Nothing relates `Float.log2`/`Float.exp` to the real functions: the Float values are compared with the real `haralick`
+at 1e-9.) -/
+theorem C19_haralick_entropies :
+    (∀ (m : ℕ) (c : List ℕ),
+      let P := matAt 0.0 m (normMat Float.ofNat c)
+      let h := haralick13 m c
+      h.getD 7 0.0 = entropyG 0.0 Float.log2 (pplusG 0.0 m P) ∧
+      h.getD 8 0.0 = entropyG 0.0 Float.log2 (normMat Float.ofNat c).toList ∧
+      h.getD 10 0.0 = entropyG 0.0 Float.log2 (pminusG 0.0 m P) ∧
+      h.getD 15 0.0 = entropyG 0.0 Float.log2 (colSumG 0.0 m P) ∧
+      h.getD 16 0.0 = entropyG 0.0 Float.log2 (rowSumG 0.0 m P)) ∧
+    (∀ (m : ℕ) (c : List ℕ), c.length = m * m → c.sum ≠ 0 →
+      let P := matAt (0 : ℝ) m (normMat Nat.cast c)
+      let px := colSumG 0 m P
+      let py := rowSumG 0 m P
+      let f9 := entropyG 0 log2R (normMat (Nat.cast : ℕ → ℝ) c).toList
+      let hx := entropyG 0 log2R px
+      let hy := entropyG 0 log2R py
+      let hxy1 := hxy1G 0 log2R m P px py
+      let hxy2 := hxy2G 0 log2R m P px py
+      (0 ≤ entropyG 0 log2R (pplusG 0 m P) ∧ 0 ≤ f9 ∧ 0 ≤ entropyG 0 log2R (pminusG 0 m P) ∧ 0 ≤ hx ∧ 0 ≤ hy) ∧
+      f9 ≤ hxy1 ∧ f9 - hxy1 ≤ 0 ∧
+      hxy1 = hx + hy ∧ hxy2 = hx + hy ∧
+      (0 ≤ 1 - Real.exp (-2 * (hxy2 - f9)) ∧ 1 - Real.exp (-2 * (hxy2 - f9)) < 1)) := by
+  refine ⟨fun m c => ⟨rfl, rfl, rfl, rfl, rfl⟩, ?_⟩
+  intro m c hlen hT P px py f9 hx hy hxy1 hxy2
+  have h0 : ∀ i j, 0 ≤ P i j := fun i j => matAt_nonneg m c i j
+  have h1 : ∑ i ∈ Finset.range m, ∑ j ∈ Finset.range m, P i j = 1 := matAt_total m c hlen hT
+  have hg : f9 ≤ hxy1 := entropy_le_hxy1 m c hlen hT
+  obtain ⟨e1, e2⟩ := hxy_eq_hx_add_hy m P h0 h1
+  have hg2 : f9 ≤ hxy2 := by
+    show f9 ≤ hxy2G 0 log2R m P px py
+    rw [e2, ← e1]; exact hg
+  exact ⟨entropies_nonneg m c hlen hT, hg, by linarith, e1, e2, f13_arg_bounds hxy2 f9 hg2⟩
+
+/-- **C19-T4 (integral image, any additive commutative group — in particular wrap-around integers).** The same
+statement as `C19_integral_prefix` for the generic model `integral` (the C++ template `integral<T>`) over **every**
+`[AddCommGroup α]`: the in-place recurrence is the two-dimensional prefix sum at every pixel and keeps the shape.
+At `α = ZMod (2^bits)` this is the arithmetic of the integer dtypes (unsigned, and signed with `-fno-strict-overflow`):
+the recurrence evaluated *with* wrap-around equals the prefix sum taken modulo `2^bits` — what the check compares the
+real output with (`wrapTo` of the exact sum). -/
+theorem C19_integral_prefix_any_group {α : Type} [AddCommGroup α] (w : Nat) (rows : List (List α))
+    (hw : ∀ r ∈ rows, r.length = w) :
+    (integral w rows).length = rows.length ∧ (∀ r ∈ integral w rows, r.length = w) ∧
+    ∀ i j, i < rows.length → j < w → ((integral w rows).getD i []).getD j 0 = prefix2 rows i j :=
+  ⟨Gen.integral_length w rows, Gen.integral_row_length w rows hw,
+   fun i j hi hj => Gen.integral_eq_prefix2 w rows hw i j hi hj⟩
+
+/-- **C19-T5 (moments, any commutative ring).** `C19_moments_def` for the generic model over every commutative ring,
+every embedding `cast` of the indices and every centre — e.g. `ℚ` or `ℝ` with the (non-integer) centre of mass. -/
+theorem C19_moments_def_any_ring {R : Type} [CommRing R] (cast : Nat → R) (rows : List (List R)) (p0 p1 : Nat)
+    (c0 c1 : R) : moments cast rows p0 p1 c0 c1 = momentsSpec cast rows p0 p1 c0 c1 :=
+  Gen.moments_eq_spec cast rows p0 p1 c0 c1
+
 /-! non-vacuity -/
 example : coocCount [2, 3] (fun p => ([0, 1, 1, 1, 0, 1].getD (ravelI [2, 3] p) 0)) [0, 1] 1 1 = 1 ∧
     coocSym [2, 3] (fun p => ([0, 1, 1, 1, 0, 1].getD (ravelI [2, 3] p) 0)) [0, 1] 0 1 = 3 := by decide
@@ -204,3 +451,48 @@ example : (normMat (Nat.cast : Nat → Rat) [1, 2, 2, 3]).toList = [1 / 8, 1 / 4
     pplusG (0 : Rat) 2 (matAt 0 2 (normMat (Nat.cast : Nat → Rat) [1, 2, 2, 3])) = [1 / 8, 1 / 2, 3 / 8, 0] ∧
     pminusG (0 : Rat) 2 (matAt 0 2 (normMat (Nat.cast : Nat → Rat) [1, 2, 2, 3])) = [1 / 2, 1 / 2] := by
   decide +kernel
+/-- a 2×3 image, centre (1/2, 1), radius 2 (with `sqrt := id`, a legitimate instance of the arbitrary function):
+    `z_11 = −1/8 − i/24`, and the rotated image gives `i · z_11 = 1/24 − i/8` -/
+example :
+    let im : Nat → Nat → Rat := fun y x => ([1, 2, 0, 3, 1, 1] : List Rat).getD (y * 3 + x) 0
+    zernikeZ (0 : Rat) 1 Nat.cast (fun x => x) (fun d k => d ^ k) (1 / 1000000000) 3 2 3 im (1 / 2) 1 2 1 1
+      = (-1 / 8, -1 / 24) ∧
+    zernikeZ (0 : Rat) 1 Nat.cast (fun x => x) (fun d k => d ^ k) (1 / 1000000000) 3 3 2
+      (fun i j => im j (3 - 1 - i)) (3 - 1 - 1) (1 / 2) 2 1 1 = (1 / 24, -1 / 8) := by
+  decide +kernel
+example : pivots 4 = [0, 1, 3, 5, 7, 15] ∧ (pivots 8).length = 36 ∧ RotEq 4 0b0110 0b0011 := by
+  refine ⟨by decide +kernel, by decide +kernel, ⟨1, by decide⟩⟩
+/-- the count matrix `[[1,2],[2,3]]`: contrast 1/2, sum average 5/4, IDM 3/4, variances 15/64, covariance −1/64 -/
+example :
+    let P := matAt (0 : Rat) 2 (normMat (Nat.cast : Nat → Rat) [1, 2, 2, 3])
+    contrastG 0 Nat.cast 2 (pminusG 0 2 P) = 1 / 2 ∧ sumAvgG 0 Nat.cast 2 (pplusG 0 2 P) = 5 / 4 ∧
+    idmG 0 1 Nat.cast 2 P = 3 / 4 ∧ varG 0 Nat.cast (colSumG 0 2 P) 2 = 15 / 64 ∧
+    covG 0 Nat.cast 2 P (meanG 0 Nat.cast (colSumG 0 2 P) 2) (meanG 0 Nat.cast (rowSumG 0 2 P) 2) = -1 / 64 := by
+  decide +kernel
+/-- a 2×3 image with levels 0..2, direction (0,1): reversed data and swapped axes give the same symmetric matrix -/
+example :
+    let im : Img Int := { shape := [2, 3], data := #[0, 1, 2, 2, 1, 1] }
+    symFold 3 (coocModel 3 { shape := [2, 3], data := im.data.reverse } [0, 1]) = #[0, 1, 0, 1, 2, 2, 0, 2, 0] ∧
+    symFold 3 (coocModel 3 im [0, 1]) = #[0, 1, 0, 1, 2, 2, 0, 2, 0] ∧
+    (swapImg im).data = #[0, 2, 1, 1, 2, 1] ∧
+    symFold 3 (coocModel 3 (swapImg im) [1, 0]) = #[0, 1, 0, 1, 2, 2, 0, 2, 0] := by
+  decide +kernel
+example :
+    let im : Nat → Nat → Rat := fun y x => ([1, 2, 0, 3, 1, 1] : List Rat).getD (y * 3 + x) 0
+    zernikeZ (0 : Rat) 1 Nat.cast (fun x => x) (fun d k => d ^ k) (1 / 1000000000) 3 2 3 (fun y x => 7 * im y x)
+      (1 / 2) 1 2 1 1 = (-1 / 8, -1 / 24) ∧
+    zernikeZ (0 : Rat) 1 Nat.cast (fun x => x) (fun d k => d ^ k) (1 / 1000000000) 3 2 3
+      (fun i j => im (2 - 1 - i) (3 - 1 - j)) (2 - 1 - 1 / 2) (3 - 1 - 1) 2 1 1 = (1 / 8, 1 / 24) := by
+  decide +kernel
+/-- the entropy hypotheses are satisfiable (count matrix `[[1,2],[2,3]]`), and a fair coin has one bit -/
+example : 0 ≤ entropyG 0 log2R (normMat (Nat.cast : ℕ → ℝ) [1, 2, 2, 3]).toList :=
+  (C19_haralick_entropies.2 2 [1, 2, 2, 3] rfl (by decide)).1.2.1
+example : entropyG 0 log2R [1 / 2, 1 / 2] = 1 := by
+  rw [entropyG_eq]
+  have h : Real.logb 2 (1 / 2) = -1 := by
+    rw [one_div, Real.logb_inv, Real.logb_self_eq_one (by norm_num)]
+  simp only [List.map_cons, List.map_nil, List.sum_cons, List.sum_nil, xlog, log2R, h]
+  norm_num
+/-- `uint8` arithmetic: 200 + 100 wraps to 44 -/
+example : integral 2 ([[200, 100], [100, 200]] : List (List (ZMod 256))) = [[200, 44], [44, 88]] := by decide
+example : moments (fun n => (n : Rat)) [[1, 2], [3, 4]] 2 0 (1 / 2) 0 = 5 / 2 := by decide +kernel
